@@ -32,13 +32,24 @@ let run (st : stream) (b : Buffer.t) : unit =
       let nodes = repeat k (fun () -> parse_nid (next st)) in (ty, nodes)) in
     let blocks = ref [] in
     let out = ref None in
+    let trecs = ref [] in
     while not (eof st) do
       match next st with
       | "SCHED" -> let (label, o) = read_sched st in blocks := (label, o) :: !blocks
       | "OUT" -> out := Some (Outcheck.read_out st)
+      | "TREC" ->
+        let kind = next st in let ty = next_int st in
+        let viol = next_z st in let count = next_z st in let n = next_int st in
+        let cycles = repeat n (fun () ->
+          ignore (next st); ignore (next st);   (* TC k *)
+          let c = next_z st in let m = next_int st in
+          let l = repeat m (fun () -> parse_vid (next st)) in (l, c)) in
+        ignore (next st);   (* TEND *)
+        trecs := (kind, ty, transition_of_obs ((viol, count), cycles)) :: !trecs
       | _ -> ()
     done;
     let blocks = List.rev !blocks in
+    let trecs = List.rev !trecs in
     (* the executable hypotheses of the end-to-end theorem (EndToEndStmts.v / Hyps.v) on this run *)
     pr "HYP valid=%b unsigned=%b perm=%b tours=%b\n" (valid_instance_b inst) (inst_unsigned_b inst)
       (List.length perm = int_of_nat inst.i_nlocs || inst.i_depots <> None) (tours_ok_b nw tours);
@@ -73,6 +84,50 @@ let run (st : stream) (b : Buffer.t) : unit =
             end) blocks;
           if !ok then begin
             Opsmodel.dump_schedule nw !cur "ls_result" b;
+            (* the transition optimisation replayed on its functional model (TOpt.v): per type, the start transition is
+               the search result's; every recorded accepted step must be one of the model's neighbours, a minimum of
+               them and strictly better than the current transition; at the end no neighbour is strictly better and
+               the transition handed back is the last accepted one *)
+            let tf = tfn nw !cur.s_tours in
+            let cfuel = nat_of_int 100000 in
+            pr "HYP3 dh_dists=%b\n" (dh_dists_nonneg_b nw);
+            let curt = ref None in
+            let curty = ref (-1) in
+            let stepno = ref 0 in
+            let size_ok t = List.length (members_of t) <= 16 in
+            List.iter (fun (kind, ty, rect) ->
+              match kind with
+              | "tstart" ->
+                curty := ty; stepno := 0;
+                (match zget (z_of_int ty) !cur.s_trans with
+                 | Some t0 ->
+                   pr "TSTART %d %s nveh=%d ncyc=%d\n" ty (if tr_eqb t0 rect then "ok" else "differs")
+                     (List.length (members_of t0)) (List.length t0.tr_cycles);
+                   curt := if size_ok t0 then Some t0 else None;
+                   if not (size_ok t0) then pr "TSKIP %d size\n" ty
+                 | None -> pr "TSTART %d MODELFAIL\n" ty; curt := None)
+              | "tstep" ->
+                (match !curt with
+                 | Some t ->
+                   (match topt_neighbors nw tf cfuel t with
+                    | Ok l ->
+                      pr "TSTEP %d %d ncand=%d %s\n" !curty !stepno (List.length l) (codes (step_codes l t rect));
+                      (match List.find_opt (fun m -> tr_eqb m rect) l with
+                       | Some m -> curt := Some m
+                       | None -> curt := None)
+                    | _ -> pr "TSTEP %d %d MODELFAIL\n" !curty !stepno; curt := None);
+                   incr stepno
+                 | None -> ())
+              | "tend" ->
+                (match !curt with
+                 | Some t ->
+                   (match topt_neighbors nw tf cfuel t with
+                    | Ok l ->
+                      pr "TSTOP %d steps=%d ncand=%d %s result=%s\n" ty !stepno (List.length l) (codes (stop_codes l t))
+                        (if tr_eqb t rect then "ok" else "differs")
+                    | _ -> pr "TSTOP %d MODELFAIL\n" ty)
+                 | None -> ())
+              | _ -> ()) trecs;
             (match List.assoc_opt "opt" blocks with
              | Some o ->
                let trans = List.map (fun (ty, e) -> (ty, transition_of_obs e)) o.so_trans in
@@ -80,6 +135,11 @@ let run (st : stream) (b : Buffer.t) : unit =
                List.iter (fun (ty, tr) ->
                  pr "TRANSVALID %s %s\n" (zs ty)
                    (codes (tinv_codes nw (tfn nw !cur.s_tours) (vehicles_iter !cur ty) tr))) trans;
+               (* C16: the cycles carried by the "opt" stage are the ones the optimiser handed back *)
+               List.iter (fun (ty, tr) ->
+                 match List.filter (fun (k, t, _) -> k = "tend" && t = int_of_z ty) trecs with
+                 | (_, _, r) :: _ -> pr "TWIRE %s %s\n" (zs ty) (if tr_eqb tr r then "ok" else "differs")
+                 | [] -> ()) trans;
                let sopt = set_next_day_transitions !cur trans in
                Opsmodel.dump_schedule nw sopt "opt" b;
                (match reassign_end_depots_consistent nw sopt with
